@@ -7,15 +7,22 @@ import proto
 from common import gen_data, rel
 
 TRUSTED_BASE = [
-    "numpy.fft is the DFT parameter; float mode rtol 1e-7 for the PSD",
+    "numpy.fft is the DFT parameter; float mode rtol 1e-7 for the PSD (model correspondence for NFFT <= 300: the list-based "
+    "model is cubic in NFFT; above, only the independent quadratic-form oracle is evaluated)",
+    "the oracle's reference is written in numpy inside the oracle: Burg recursion, Yule-Walker solve for the lags, "
+    "scipy.linalg.toeplitz, numpy.linalg.inv, the quadratic form at every bin; tolerance 1e-6 * max(1, 1e-6 cond R)",
     "the Musicus identity psi_K = sum_{i-j=K} (R^-1)_{ij} (Gohberg-Semencul formula for the inverse of the Toeplitz matrix of an AR "
     "model) is not proved in Lean: it is tested with EXACT equality in rational arithmetic inside the model (R from the step-down "
     "recursion of the Burg model, inverse by Gauss-Jordan elimination) on dyadic data",
 ]
 PARTIAL = []
 ASSUMPTIONS = ["NFFT >= 2m (no overlap of the two halves of psi); non-degenerate Burg error (rho_k >= 1e-9 rho_0)"]
-RULE = ("real/complex data (noise, tones in noise, integer) of length 8..128 x m in 2..min(N/2,16) x NFFT >= 2m even/odd x "
-        "sampling in {1, 2.5, 100}; exact identity cases N <= 16, m <= 5")
+RULE = ("real/complex data (noise, tones in noise, integer, trend) of length 8..128 x m in 2..min(N/2,16) x NFFT >= 2m even/odd "
+        "(the boundaries 2m and 2m+1 for every m in 2..8, NFFT < 32, primes, powers of two up to the default 4096) x "
+        "sampling in {0.01, 0.5, 1, 2.5, 3 (int), 100}; containers handed to the API: float64/complex128 arrays, int64 / int16 "
+        "arrays, lists, complex arrays with zero imaginary part; smallest sizes (N=8 m=4 NFFT=8, N=8 m=2 NFFT=4, N=9 m=4 NFFT=9, "
+        "N=32 m=16 NFFT=32); call forms: defaults, positional, keyword; class form with scale_by_freq off/on, its ar / reflection "
+        "attributes; exact identity cases N <= 16, m <= 5")
 
 
 def _sp():
@@ -27,12 +34,36 @@ def c(v):
     return np.asarray(v).astype(complex).ravel()
 
 
+INT_KINDS = {"int64": np.int64, "int16": np.int16}
+MODEL_MAX_NFFT = 300     # the list-based model is cubic in NFFT: above this only the oracle is evaluated
+
+
+def _api_input(p):
+    """what is handed to the real API: p["x"] is always the float64/complex128 array of the sample VALUES (used by the reference
+    and the model); p["dkind"] says in which container / dtype the same values are passed to the library ("czero": the
+    complex128 array itself, whose imaginary part is identically zero).  (Amplitude variants
+    derived by vcheck.vary may make an integer record non-integer or too large for the narrow dtype: the values then go in
+    the next wider container that holds them exactly.)"""
+    x = p["x"]
+    dk = p.get("dkind")
+    if dk == "list":
+        return [complex(v) if np.iscomplexobj(x) else float(v) for v in x]
+    if dk in INT_KINDS and not np.iscomplexobj(x) and np.all(x == np.round(x)) and np.max(np.abs(x)) < 2.0 ** 62:
+        dt = INT_KINDS[dk]
+        if np.min(x) < np.iinfo(dt).min or np.max(x) > np.iinfo(dt).max:
+            dt = np.int64
+        return np.asarray(x).astype(dt)
+    return x
+
+
 def impl_minvar(p):
-    psd, A, k = _sp().minvar(p["x"], p["m"], sampling=p["fs"], NFFT=p["nfft"])
+    psd, A, k = _sp().minvar(_api_input(p), p["m"], sampling=p["fs"], NFFT=p["nfft"])
     return [np.asarray(psd), c(A), c(k)]
 
 
 def model_minvar(p):
+    if p["nfft"] > MODEL_MAX_NFFT:
+        return None
     return ("F", proto.request("minvarx", "F", [p["m"], p["nfft"]], [np.asarray(p["x"]), [p["fs"]]]))
 
 
@@ -86,53 +117,143 @@ def _acf_of_ar(a, rho, m):
     return r[:m]
 
 
+def _reference(x, m, nfft, fs):
+    """INDEPENDENT reference of the property statement: sampling / (e(f_k)^H R^-1 e(f_k)), f_k = k/NFFT, R the m x m Hermitian
+    Toeplitz matrix of the autocorrelation lags implied by the order m-1 Burg model (own Burg recursion, own Yule-Walker solve,
+    dense inverse, the quadratic form at every bin).  Returns (two-sided reference, AR parameters without the leading 1,
+    reflection coefficients, cond R)."""
+    from scipy.linalg import toeplitz
+    a, rho, ks = _burg(x, m - 1)
+    r = _acf_of_ar(a, rho, m)
+    R = toeplitz(r, np.conj(r))
+    Ri = np.linalg.inv(R)
+    E = np.exp(2j * np.pi * np.outer(np.arange(nfft), np.arange(m)) / nfft)      # row k: e(f_k)
+    ref = fs / np.real(np.einsum("ki,ij,kj->k", np.conj(E), Ri, E))
+    return ref, a, ks, float(np.linalg.cond(R))
+
+
+def _tol(cond):
+    return 1e-6 * max(1.0, cond * 1e-6)
+
+
+def _desc(p):
+    x = np.asarray(p["x"])
+    return "N=%d m=%d NFFT=%s fs=%s %s%s" % (len(x), p["m"], p.get("nfft"), p.get("fs"), "complex" if np.iscomplexobj(x) else "real",
+                                          " as " + p["dkind"] if p.get("dkind") else "")
+
+
+def _check_function_output(res, x, m, nfft, fs, what):
+    """the clauses of the property on one return value of spectrum.minvar"""
+    out = []
+    psd, A, k = res
+    psd, A, k = np.asarray(psd), c(A), c(k)
+    if psd.shape != (nfft,):
+        return ["minvar PSD has shape %s, expected (%d,) (%s)" % (psd.shape, nfft, what)]
+    if np.iscomplexobj(psd) or not np.all(np.isfinite(psd)) or not np.all(psd > 0):
+        out.append("minvar PSD is not real, finite and strictly positive (min %.4g; %s)" % (float(np.min(np.real(psd))), what))
+    ref, a, ks, cond = _reference(x, m, nfft, fs)
+    if len(A) != m or A[0] != 1 or rel(A[1:], a) > 1e-8:
+        out.append("minvar does not return the Burg AR vector (with leading 1) of order m-1 (%s)" % what)
+    if len(k) != m - 1 or rel(k, ks) > 1e-8:
+        out.append("minvar does not return the Burg reflection coefficients (%s)" % what)
+    if rel(psd, ref) > _tol(cond):
+        out.append("minvar PSD != sampling/(e^H R^-1 e): rel err %.2e (%s)" % (rel(psd, ref), what))
+    return out
+
+
 def oracle_minvar(p):
     sp = _sp()
     x = np.asarray(p["x"])
     m, nfft, fs = p["m"], p["nfft"], p["fs"]
+    return _check_function_output(sp.minvar(_api_input(p), m, sampling=fs, NFFT=nfft), x, m, nfft, fs, _desc(p))
+
+
+def _fold(ref, is_complex, nfft):
+    """the class's rule for the stored estimate: complex data -> the two-sided estimate itself; real data -> the first half of
+    the two-sided estimate (bins 0..NFFT/2 for even NFFT, 0..(NFFT-1)/2 for odd NFFT), EVERY bin doubled, including DC and
+    Nyquist (the convention of the other parametric classes of the package)"""
+    if is_complex:
+        return ref
+    L = nfft // 2 + 1 if nfft % 2 == 0 else (nfft + 1) // 2
+    return 2 * ref[:L]
+
+
+def _check_class_output(o, xin, x, m, nfft, fs, scale, what):
     out = []
-    psd, A, k = sp.minvar(p["x"], m, sampling=fs, NFFT=nfft)
-    psd, A, k = np.asarray(psd), c(A), c(k)
-    if psd.shape != (nfft,):
-        return ["minvar PSD has shape %s, expected (%d,)" % (psd.shape, nfft)]
-    if np.iscomplexobj(psd) or not np.all(np.isfinite(psd)) or not np.all(psd > 0):
-        out.append("minvar PSD is not real, finite and strictly positive (min %.4g; m=%d NFFT=%d)" % (float(np.min(np.real(psd))), m, nfft))
-    a, rho, ks = _burg(x, m - 1)
+    got = np.asarray(o.psd)
+    is_complex = np.iscomplexobj(np.asarray(xin))     # the class chooses the branch from the dtype it is handed
+    factor = 2 * np.pi / (fs / float(nfft)) if scale else 1.0      # scale_by_freq: times 2*pi/df, df = sampling/NFFT
+    ind, a, ks, cond = _reference(x, m, nfft, float(fs))
+    ind = _fold(ind, is_complex, nfft) * factor
+    if got.shape != ind.shape or np.iscomplexobj(got) or rel(got, ind) > _tol(cond):
+        out.append("pminvar(%s%s).psd is not sampling/(e^H R^-1 e) on that grid, folded by the class's rule (rel err %.2e)" % (
+            what, ", scale_by_freq" if scale else "", rel(got, ind) if got.shape == ind.shape else float("inf")))
+    if not (np.all(np.isfinite(got)) and np.all(got > 0)):
+        out.append("pminvar(%s).psd is not finite and strictly positive" % what)
+    A, k = c(o.ar), c(o.reflection)
     if len(A) != m or A[0] != 1 or rel(A[1:], a) > 1e-8:
-        out.append("minvar does not return the Burg AR vector (with leading 1) of order m-1")
-    if rel(k, ks) > 1e-8:
-        out.append("minvar does not return the Burg reflection coefficients")
-    r = _acf_of_ar(a, rho, m)
-    from scipy.linalg import toeplitz
-    R = toeplitz(r, np.conj(r))
-    Ri = np.linalg.inv(R)
-    kk = np.arange(nfft)
-    ref = np.zeros(nfft)
-    for j in range(nfft):
-        e = np.exp(2j * np.pi * kk[j] / nfft * np.arange(m))
-        ref[j] = fs / np.real(np.conj(e) @ Ri @ e)
-    if rel(psd, ref) > 1e-6 * max(1.0, np.linalg.cond(R) * 1e-6):
-        out.append("minvar PSD != sampling/(e^H R^-1 e): rel err %.2e (N=%d m=%d NFFT=%d fs=%g %s)" % (
-            rel(psd, ref), len(x), m, nfft, fs, "complex" if np.iscomplexobj(x) else "real"))
+        out.append("pminvar(%s).ar is not the Burg AR vector (with leading 1) of order m-1" % what)
+    if len(k) != m - 1 or rel(k, ks) > 1e-8:
+        out.append("pminvar(%s).reflection is not the vector of Burg reflection coefficients" % what)
     return out
 
 
 def oracle_class(p):
-    """the class form: pminvar(...).psd is the function's estimate for the WHOLE record on the requested NFFT (two-sided for
-    complex data; for real data the non-negative-frequency half, doubled) - for NFFT below, equal to and above the data length"""
+    """the class form: pminvar(...).psd is the estimate for the WHOLE record on the requested NFFT (two-sided for
+    complex data; for real data the non-negative-frequency half, doubled) - for NFFT below, equal to and above the data length;
+    .ar / .reflection are the Burg vectors the estimate used"""
     sp = _sp()
     x = np.asarray(p["x"])
+    xin = _api_input(p)
     m, nfft, fs = p["m"], p["nfft"], p["fs"]
-    o = sp.pminvar(x, m, NFFT=nfft, sampling=fs, scale_by_freq=False)
+    scale = bool(p.get("scale", False))
+    what = _desc(p)
+    o = sp.pminvar(xin, m, NFFT=nfft, sampling=fs, scale_by_freq=scale)
     got = np.asarray(o.psd)
-    ref = np.asarray(sp.minvar(x, m, sampling=fs, NFFT=nfft)[0])
-    if not np.iscomplexobj(x):
-        L = nfft // 2 + 1 if nfft % 2 == 0 else (nfft + 1) // 2
-        ref = 2 * ref[:L]
+    out = []
+    # (a) consistency with the function (code against code, tight)
+    ref = np.asarray(sp.minvar(xin, m, sampling=fs, NFFT=nfft)[0])
+    ref = _fold(ref, np.iscomplexobj(np.asarray(xin)), nfft) * (2 * np.pi * nfft / fs if scale else 1.0)
     if got.shape != ref.shape or rel(got, ref) > 1e-9:
-        return ["pminvar(N=%d, m=%d, NFFT=%d, %s).psd is not the minimum-variance estimate of the record on that grid (rel err %.2e)" % (
-            len(x), m, nfft, "complex" if np.iscomplexobj(x) else "real", rel(got, ref) if got.shape == ref.shape else float("inf"))]
-    return []
+        out.append("pminvar(%s).psd is not the minimum-variance estimate of the record on that grid (rel err %.2e)" % (
+            what, rel(got, ref) if got.shape == ref.shape else float("inf")))
+    # (b) the property statement itself, against the independent reference, and the returned Burg vectors
+    out += _check_class_output(o, xin, x, m, nfft, fs, scale, what)
+    return out
+
+
+# the documented call forms of the two entry points (spectrum.minvar, pminvar): defaults, positional, keyword, integer sampling
+DEFAULT_NFFT = 4096      # the documented default of minvar ("NFFT=default_NFFT", 4096), written out independently of the package
+
+
+def oracle_forms(p):
+    sp = _sp()
+    x = np.asarray(p["x"])
+    m, nfft, form = p["m"], p["nfft"], p["form"]
+    what = "form %s, N=%d m=%d %s" % (form, len(x), m, "complex" if np.iscomplexobj(x) else "real")
+    if form == "default":                 # minvar(x, m): sampling 1, the package default NFFT
+        return _check_function_output(sp.minvar(x, m), x, m, DEFAULT_NFFT, 1.0, what)
+    if form == "positional":              # minvar(x, m, sampling, NFFT)
+        return _check_function_output(sp.minvar(x, m, 2, nfft), x, m, nfft, 2.0, what)
+    if form == "keyword":                 # every argument by its documented name
+        return _check_function_output(sp.minvar(X=x, order=m, NFFT=nfft, sampling=2.5), x, m, nfft, 2.5, what)
+    if form == "intfs":                   # integer sampling
+        return _check_function_output(sp.minvar(x, m, sampling=3, NFFT=nfft), x, m, nfft, 3.0, what)
+    if form == "smallfs":
+        return _check_function_output(sp.minvar(x, m, sampling=0.01, NFFT=nfft), x, m, nfft, 0.01, what)
+    if form == "class-default":           # pminvar(x, m): NFFT = the record length (needs N >= 2m), sampling 1, unscaled
+        o = sp.pminvar(x, m)
+        return _check_class_output(o, x, x, m, len(x), 1.0, False, what)
+    if form == "class-positional":        # pminvar(data, order, NFFT, sampling, scale_by_freq)
+        o = sp.pminvar(x, m, nfft, 2, True)
+        return _check_class_output(o, x, x, m, nfft, 2.0, True, what)
+    if form == "class-intfs":
+        o = sp.pminvar(x, m, NFFT=nfft, sampling=3)
+        return _check_class_output(o, x, x, m, nfft, 3.0, False, what)
+    raise ValueError(form)
+
+
+FORMS = ["default", "positional", "keyword", "intfs", "smallfs", "class-default", "class-positional", "class-intfs"]
 
 
 def impl_ident(p):
@@ -149,34 +270,83 @@ def post_ident(p, iv, mv):
     return [], []
 
 
-def oracle_ident(p):
+_IDENT_REPLY = {}
+
+
+def _ident_reply(p):
     line = model_ident(p)[1]
-    rep = proto.run_driver([line])[0]
-    st, val = proto.parse_reply(rep, "Q")
+    if line not in _IDENT_REPLY:
+        if len(_IDENT_REPLY) > 4096:
+            _IDENT_REPLY.clear()
+        _IDENT_REPLY[line] = proto.parse_reply(proto.run_driver([line])[0], "Q")
+    return _IDENT_REPLY[line]
+
+
+def oracle_ident(p):
+    """psi_K = sum_{i-j=K} (R^-1)_{ij} (the LOWER diagonals) exactly; the sums over the upper diagonals are the conjugates, so
+    accepting either direction would let a conjugation error of psi pass"""
+    st, val = _ident_reply(p)
     if st != "ok":
+        # "singular"/"value": the model could not form R^-1 exactly - the case is not evaluated (counted by the ident:skipped tag)
         return [] if val in ("singular", "value") else ["model error %s" % val]
     psi, d1, d2 = val
-    if psi != d1 and psi != d2:
-        return ["EXACT Musicus identity fails in the model: psi_K != diagonal sums of R^-1 (m=%d, N=%d)" % (p["m"], len(p["x"]))]
+    if psi != d1:
+        return ["EXACT Musicus identity fails in the model: psi_K != sum over the K-th lower diagonal of R^-1 (m=%d, N=%d)" % (p["m"], len(p["x"]))]
     return []
+
+
+def _tags_ident(p):
+    t = ["ident:" + ("complex" if np.iscomplexobj(p["x"]) else "real")]
+    st, val = _ident_reply(p)
+    t.append("ident:evaluated" if st == "ok" else "ident:skipped:%s" % val)
+    return t
 
 
 def _key(p):
     x = np.asarray(p["x"])
-    return "%d|%s|%s|%s|%s|%d" % (len(x), p["m"], p.get("nfft"), p.get("fs"), np.iscomplexobj(x), hash(x.tobytes()) & 0xFFFFFF)
+    return "%d|%s|%s|%s|%s|%d|%s|%s|%s" % (len(x), p["m"], p.get("nfft"), p.get("fs"), np.iscomplexobj(x), hash(x.tobytes()) & 0xFFFFFF,
+                                       p.get("dkind"), p.get("scale"), p.get("form"))
 
 
 def _tags(p):
     t = ["complex" if np.iscomplexobj(p["x"]) else "real", "m:%d" % p["m"]]
     if "nfft" in p:
-        t.append("nfft:" + ("odd" if p["nfft"] % 2 else "even"))
+        nfft, m, N = p["nfft"], p["m"], len(p["x"])
+        t.append("nfft:" + ("odd" if nfft % 2 else "even"))
+        if nfft == 2 * m:
+            t.append("nfft:=2m")
+        elif nfft == 2 * m + 1:
+            t.append("nfft:=2m+1")
+        t.append("nfft:<32" if nfft < 32 else "nfft:32..127" if nfft < 128 else "nfft:128..300" if nfft <= MODEL_MAX_NFFT else "nfft:>300(oracle only)")
+        if 2 * m == N:
+            t.append("m=N/2")
+        if N <= 10:
+            t.append("N<=10")
+    if p.get("dkind"):
+        t.append("input:" + p["dkind"])
+    return t
+
+
+def _tags_class(p):
+    N, nfft = len(p["x"]), p["nfft"]
+    t = ["class:nfft" + ("<N" if nfft < N else ">=N"), "class:" + ("complex" if np.iscomplexobj(p["x"]) else "real"),
+         "class:scale_by_freq=%s" % bool(p.get("scale", False)), "class:fs=%g" % p["fs"]]
+    if nfft == N:
+        t.append("class:nfft=N")
+    if p["m"] > 8:
+        t.append("class:m>8")
+    if 2 * p["m"] == N:
+        t.append("class:m=N/2")
+    if p.get("dkind"):
+        t.append("class:input:" + p["dkind"])
     return t
 
 
 KINDS = {
     "minvar": {"impl": impl_minvar, "model": model_minvar, "oracle": oracle_minvar, "rtol": 1e-7, "atol": 1e-300, "key": _key, "tags": _tags},
-    "class": {"oracle": oracle_class, "key": _key, "tags": lambda p: ["class:nfft" + ("<N" if p["nfft"] < len(p["x"]) else ">=N")]},
-    "ident": {"oracle": oracle_ident, "key": _key, "tags": lambda p: ["ident:" + ("complex" if np.iscomplexobj(p["x"]) else "real")]},
+    "class": {"oracle": oracle_class, "key": _key, "tags": _tags_class},
+    "forms": {"oracle": oracle_forms, "key": _key, "tags": lambda p: ["form:" + p["form"]]},
+    "ident": {"oracle": oracle_ident, "key": _key, "tags": _tags_ident},
 }
 
 
@@ -223,3 +393,100 @@ def gen(rng, nrng, tier):
         if not _ok(x, m):
             continue
         yield ("ident", {"x": x, "m": m})
+
+    # ---- audited gaps (appended: the streams of the loops above are unchanged) ----------------------------------------------
+    quick = tier == "quick"
+    FS_F = [1.0, 2.5, 100.0, 0.01]
+    FS_C = [0.5, 100.0, 1.0, 2.5]
+
+    def data(i, N, cplx, kind=None):
+        x, _ = gen_data(nrng, N, cplx, kind=kind or kinds[i % 4])
+        return np.asarray(x, dtype=complex if cplx else float)
+
+    # (1) smallest sizes and equal-parameter boundaries, both kinds, real and complex
+    corners = [(8, 4, 8), (8, 2, 4), (9, 4, 9), (32, 16, 32), (10, 5, 10), (8, 4, 9), (16, 8, 16)]
+    j = 0
+    for rep in range(1 if quick else 3):
+        for ci, (N, m, nfft) in enumerate(corners):
+            for cplx in (False, True):
+                x = data(j, N, cplx, kind=["noise", "tone", "trend", "int"][(j // 2 + rep) % 4])
+                j += 1
+                if not _ok(x, m):
+                    continue
+                yield ("minvar", {"x": x, "m": m, "nfft": nfft, "fs": FS_F[(ci + rep) % 4]})
+                yield ("class", {"x": x, "m": m, "nfft": nfft, "fs": FS_C[(ci + rep) % 4], "scale": bool((ci // 2 + rep + cplx) % 2)})
+
+    # (2) the NFFT boundary for every small order: NFFT = 2m and 2m+1 (never reached by the first loop: 2m <= 32 there)
+    j = 0
+    for rep in range(1 if quick else 4):
+        for m in range(2, 9):
+            for d in (0, 1):
+                cplx = bool((j + rep) % 2)
+                j += 1
+                N = int(nrng.integers(2 * m, 129))
+                x = data(j // 2, N, cplx)
+                if not _ok(x, m):
+                    continue
+                yield ("minvar", {"x": x, "m": m, "nfft": 2 * m + d, "fs": FS_F[(j // 2) % 3]})
+    # other NFFT never compared with the quadratic form before: below 32, primes, powers of two >= 128, the default 4096
+    small = [11, 13, 16, 17, 19, 23, 24, 29, 31]
+    big = [127, 128, 257, 1024, 4096, 131, 256, 300, 301, 512, 2048, 4097]
+    nlist = (small[::2] + big[:5]) if quick else (small + big) * 2
+    for i, nfft in enumerate(nlist):
+        cplx = bool((i + i // len(small + big)) % 2)
+        mmax = min(nfft // 2, 16)
+        N = int(nrng.integers(max(8, 2 * 2), 129))
+        mmax = min(mmax, N // 2)
+        m = mmax if i % 3 == 0 else int(nrng.integers(2, mmax + 1))
+        x = data(i // 2, N, cplx)
+        if not _ok(x, m):
+            continue
+        yield ("minvar", {"x": x, "m": m, "nfft": nfft, "fs": FS_F[(i // 2) % 4]})
+
+    # (3) container / dtype actually handed to the API (reference and model get the same values as float64 / complex128)
+    dks = ["int64", "int16", "list", "list", "czero"]
+    for i in range(10 if quick else 60):
+        dk = dks[i % 5]
+        N = int(nrng.integers(8, 97))
+        if dk == "int64":
+            x = nrng.integers(-2 ** 40, 2 ** 40, N).astype(float)          # squares exceed 2^63
+        elif dk == "int16":
+            x = nrng.integers(-32768, 32768, N).astype(float)              # squares exceed the int16 (and int32 sums the) range
+        elif dk == "czero":
+            x = data(i // 5, N, False, kind=kinds[(i // 5) % 4]).astype(complex)
+        else:
+            x = data(i // 5, N, bool(i % 5 == 3), kind=kinds[(i // 5) % 4])
+        m = int(nrng.integers(2, min(N // 2, 16) + 1))
+        if not _ok(x, m):
+            continue
+        q = {"x": x, "m": m, "dkind": dk}
+        nf = [2 * m, 2 * m + 1, 32, N, N + 1, 64, 129][(i // 5) % 7]
+        yield ("minvar", dict(q, nfft=max(nf, 2 * m), fs=FS_F[(i // 5) % 3]))
+        nf = [N, 2 * m, N + 1, 2 * m + 1, 2 * N, N - 1][(i // 5) % 6]
+        yield ("class", dict(q, nfft=max(nf, 2 * m), fs=FS_C[(i // 5) % 4], scale=bool((i // 10) % 2)))
+    # czero: the function value is the one of the real record; the class takes the two-sided branch (checked by oracle_class
+    # through the dtype of what it is handed)
+
+    # (4) class form: orders up to 16, scale_by_freq on, sampling in {0.5, 100}, against the independent reference
+    for i in range(16 if quick else 160):
+        cplx = bool(i % 2)
+        N = int(nrng.integers(8, 100))
+        x = data(i // 2, N, cplx)
+        mmax = min(N // 2, 16)
+        m = mmax if i % 5 == 0 else int(nrng.integers(2, mmax + 1))
+        if not _ok(x, m):
+            continue
+        nf = [2 * m, 2 * m + 1, N, N + 1, max(2 * m, N - 1), 2 * N, 2 * N + 1, 128, 255][(i // 2) % 9]
+        yield ("class", {"x": x, "m": m, "nfft": max(nf, 2 * m), "fs": FS_C[(i // 2) % 2], "scale": bool((i // 4) % 2 == 0)})
+
+    # (5) entry points / argument forms
+    for i in range(len(FORMS) * (2 if quick else 12)):
+        form = FORMS[i % len(FORMS)]
+        cplx = bool((i // len(FORMS)) % 2)
+        N = int(nrng.integers(8, 80))
+        x = data(i // len(FORMS), N, cplx)
+        m = 4 if i < 2 * len(FORMS) else int(nrng.integers(2, min(N // 2, 8) + 1))
+        if N < 2 * m or not _ok(x, m):
+            continue
+        nfft = 16 if i < 2 * len(FORMS) else [2 * m, 2 * m + 1, 4 * m, 33, 64][(i // len(FORMS)) % 5]
+        yield ("forms", {"x": x, "m": m, "nfft": max(nfft, 2 * m), "form": form})
